@@ -19,13 +19,34 @@ import (
 // words = 72 bytes of the cyclic repetition of password||NUL and nothing else.
 func c17SameKey(a, b []byte) bool { return refkdf.BcryptKeyView(a) == refkdf.BcryptKeyView(b) }
 
+// c17Mem is the memory layout class used for the byte-slice inputs of the
+// current case (set once per generated / enumerated case).
+var c17Mem int
+
 func c17Compare(hash, pw []byte) (err error, panicked error) {
-	panicked = noPanic(func() { err = bcrypt.CompareHashAndPassword(hash, pw) })
+	lay := placeInputs(c17Mem, hash, pw)
+	panicked = noPanic(func() { err = bcrypt.CompareHashAndPassword(lay.placed[0], lay.placed[1]) })
+	if panicked == nil {
+		panicked = lay.check()
+	}
 	return
 }
 
 func c17Cost(hash []byte) (cost int, err error, panicked error) {
-	panicked = noPanic(func() { cost, err = bcrypt.Cost(hash) })
+	lay := placeInputs(c17Mem, hash)
+	panicked = noPanic(func() { cost, err = bcrypt.Cost(lay.placed[0]) })
+	if panicked == nil {
+		panicked = lay.check()
+	}
+	return
+}
+
+func c17Generate(pw []byte, cost int) (hash []byte, err error, panicked error) {
+	lay := placeInputs(c17Mem, pw)
+	panicked = noPanic(func() { hash, err = bcrypt.GenerateFromPassword(lay.placed[0], cost) })
+	if panicked == nil {
+		panicked = lay.check()
+	}
 	return
 }
 
@@ -211,6 +232,7 @@ func TestC17(t *testing.T) {
 	}
 
 	rapid.Check(t, func(rt *rapid.T) {
+		c17Mem = drawMem(rt)
 		if weighted(rt, "part", 72, 28) == 1 {
 			c17Malformed(c, rt, fail)
 			return
@@ -230,15 +252,15 @@ func TestC17(t *testing.T) {
 		cost := []int{4, 4, 4, 4, 5, 5, 6}[uniform(rt, "cost", 0, 6)]
 		hasNUL := c17Has(pw, func(b byte) bool { return b == 0 })
 		hasHigh := c17Has(pw, func(b byte) bool { return b >= 0x80 })
-		classes := []string{"alphabet=" + c17AlphaNames[alpha], fmt.Sprintf("cost=%d", cost), "len=" + gen.LenClass(n, 72)}
+		classes := []string{"mem=" + memClasses[c17Mem], "alphabet=" + c17AlphaNames[alpha], fmt.Sprintf("cost=%d", cost), "len=" + gen.LenClass(n, 72)}
 
 		var hash, salt []byte
 		origin := "GenerateFromPassword"
 		minor := byte('a')
 		if n > 72 {
 			// documented: passwords over 72 bytes are refused by GenerateFromPassword
-			var gerr error
-			if pan := noPanic(func() { hash, gerr = bcrypt.GenerateFromPassword(pw, cost) }); pan != nil {
+			var gerr, pan error
+			if hash, gerr, pan = c17Generate(pw, cost); pan != nil {
 				fail(rt, "GenerateFromPassword(%d bytes): %v", n, pan)
 			}
 			if !errors.Is(gerr, bcrypt.ErrPasswordTooLong) || hash != nil {
@@ -251,8 +273,8 @@ func TestC17(t *testing.T) {
 			origin = "ref.Bcrypt(long password)"
 			classes = append(classes, "generate:too-long")
 		} else {
-			var gerr error
-			if pan := noPanic(func() { hash, gerr = bcrypt.GenerateFromPassword(pw, cost) }); pan != nil {
+			var gerr, pan error
+			if hash, gerr, pan = c17Generate(pw, cost); pan != nil {
 				fail(rt, "GenerateFromPassword(%x, %d): %v", pw, cost, pan)
 			}
 			if gerr != nil {
@@ -353,6 +375,7 @@ func TestC17(t *testing.T) {
 				pw[l/2] = 0
 			}
 			salt := detBytes("c17.salt", idx, 16)
+			c17Mem = idx
 			h := []byte(refkdf.Bcrypt(pw, salt, 4, 'b'))
 			for pos := 64; pos < l+1; pos++ {
 				var cand []byte
@@ -375,6 +398,143 @@ func TestC17(t *testing.T) {
 		}
 	}
 	c.Exhaustive("72-byte boundary: lengths 66..80 x 3 NUL variants x change position 64..len (this shard)", n)
+	c17GrammarTables(c, t)
+}
+
+// c17GrammarTables derives malformed hash strings by grammar from valid hashes
+// (reference-made, a published vector, a fresh GenerateFromPassword result), for
+// every version form: every truncation length, short extensions, every '$'
+// dropped / duplicated / replaced, every two-digit cost and a set of malformed
+// cost fields, and a character outside the radix-64 alphabet at every salt and
+// digest position.  Cost and CompareHashAndPassword must never panic; they must
+// return an error wherever the string cannot be the hash of the password
+// (proper truncations, foreign characters, documented rejection classes), and
+// agree with the reference on every canonical string.
+func c17GrammarTables(c *ev.Collector, t *testing.T) {
+	type base struct {
+		pw   []byte
+		hash string
+	}
+	pw0 := []byte("correct horse battery staple")
+	bases := []base{
+		{pw0, refkdf.Bcrypt(pw0, detBytes("c17.grammar.salt", 0, 16), 4, 'a')},
+		{[]byte("U*U"), "$2a$05$CCCCCCCCCCCCCCCCCCCCC.E5YPO9kmyuRGyh0XouQYb4YMJKvyOeW"},
+	}
+	if h, err := bcrypt.GenerateFromPassword([]byte("fresh"), bcrypt.MinCost); err == nil && len(h) == 60 {
+		bases = append(bases, base{[]byte("fresh"), string(h)})
+	}
+	forms := []string{"$2$", "$2a$", "$2b$", "$2y$", "$2x$", "$3a$", "$1a$", "$2\x00$"}
+	idx, n := 0, 0
+	fatal := func(format string, args ...any) {
+		what := fmt.Sprintf(format, args...)
+		c.Violation(what, "")
+		t.Fatalf("VF-VIOLATION: property=C17 %s", what)
+	}
+	// run applies the common oracle; mustFail: the string cannot be a hash of pw.
+	run := func(kind string, h, pw []byte, mustFail bool) {
+		idx++
+		if !ev.Mine(idx) {
+			return
+		}
+		c17Mem = idx
+		cost, cerr, pan := c17Cost(h)
+		if pan != nil {
+			fatal("grammar table (%s): Cost(%q): %v", kind, h, pan)
+		}
+		if len(h) < 59 && cerr == nil {
+			fatal("grammar table (%s): Cost(%q) = %d without error for a %d-byte string (shorter than any bcrypt hash)", kind, h, cost, len(h))
+		}
+		if cerr == nil && (cost < bcrypt.MinCost || cost > bcrypt.MaxCost) {
+			fatal("grammar table (%s): Cost(%q) = %d without error", kind, h, cost)
+		}
+		verdict := "cost-error"
+		if cerr != nil || cost <= 7 {
+			err, pan := c17Compare(h, pw)
+			if pan != nil {
+				fatal("grammar table (%s): CompareHashAndPassword(%q, %q): %v", kind, h, pw, pan)
+			}
+			if cerr != nil && err == nil {
+				fatal("grammar table (%s): Cost(%q) fails (%v) but CompareHashAndPassword verifies", kind, h, cerr)
+			}
+			if (mustFail || len(h) < 59) && err == nil {
+				fatal("grammar table (%s): CompareHashAndPassword(%q, %q) verifies a string that cannot be the hash of that password", kind, h, pw)
+			}
+			if m, pc, s, digest, ok := c17StrictParse(h); ok && len(pw) < 72 {
+				want := refkdf.BcryptRaw(append(append([]byte{}, pw...), 0), s, uint(pc))
+				if same := bytes.Equal(want[:23], digest); same != (err == nil) {
+					fatal("grammar table (%s): CompareHashAndPassword(%q, %q) = %v but the reference bcrypt ($2%c$, cost %d) says match=%v", kind, h, pw, err, m, pc, same)
+				}
+			}
+			if cerr == nil {
+				verdict = map[bool]string{true: "verified", false: "rejected"}[err == nil]
+			}
+		} else {
+			verdict = "skipped-high-cost"
+		}
+		c.Case(true, fmt.Sprintf("grammar|%s|%d|%s", kind, len(h), verdict), "grammar:"+kind, "malformed-verdict:"+verdict)
+		n++
+	}
+	for bi, b := range bases {
+		body := b.hash[4:] // cost, '$', salt, digest
+		for fi, form := range forms {
+			full := []byte(form + body)
+			fname := fmt.Sprintf("%q", form)
+			// every truncation length
+			for l := 0; l < len(full); l++ {
+				run("truncate:"+fname, full[:l], b.pw, true)
+			}
+			run("intact:"+fname, full, b.pw, fi == 5)
+			// extensions
+			for _, ext := range []string{".", "A", "$", "\x00", "=", "AB", "..$", "\x00\x00\x00"} {
+				e := []byte(ext)
+				run("extend:"+fname, append(append([]byte{}, full...), e...), b.pw, fi == 5)
+			}
+			// every '$'
+			for pos, ch := range full {
+				if ch != '$' {
+					continue
+				}
+				run("dollar-dropped:"+fname, append(append([]byte{}, full[:pos]...), full[pos+1:]...), b.pw, false)
+				run("dollar-duplicated:"+fname, append(append(append([]byte{}, full[:pos]...), '$'), full[pos:]...), b.pw, false)
+				for _, r := range []byte{'#', '2', 0, '.'} {
+					m := append([]byte{}, full...)
+					m[pos] = r
+					run("dollar-replaced:"+fname, m, b.pw, pos == 0)
+				}
+			}
+			// cost field
+			co := len(form)
+			for cv := 0; cv < 100; cv++ {
+				if bi > 0 && cv > 12 && cv < 30 {
+					continue
+				}
+				m := append([]byte{}, full...)
+				copy(m[co:], fmt.Sprintf("%02d", cv))
+				run("cost-digits:"+fname, m, b.pw, false)
+			}
+			for _, cs := range []string{"4$", "$4", " 4", "4 ", "+4", "-4", "4.", "a4", "4a", "0x", "\x00\x00", "\xff\xff", "٤٤"[:2]} {
+				m := append([]byte{}, full...)
+				copy(m[co:], cs[:2])
+				run("cost-malformed:"+fname, m, b.pw, false)
+			}
+			// a character outside the alphabet at every salt / digest position
+			if bi == 0 || fi == 1 {
+				start := len(form) + 3
+				for pos := start; pos < len(full); pos++ {
+					for _, r := range []byte{'!', '=', '$', 0, 0x80} {
+						m := append([]byte{}, full...)
+						m[pos] = r
+						where := "salt"
+						if pos >= start+22 {
+							where = "digest"
+						}
+						run("foreign-char-in-"+where+":"+fname, m, b.pw, true)
+					}
+				}
+			}
+		}
+	}
+	c.Exhaustive("grammar-derived malformed hashes: 8 version forms x 3 valid bases x {every truncation length, 8 extensions, every '$' dropped/duplicated/replaced, cost 00..99 + 13 malformed cost fields, foreign character at every salt/digest position} (this shard)", n)
 }
 
 // c17Malformed is the totality clause: Cost and CompareHashAndPassword on
